@@ -19,6 +19,7 @@ import (
 	"math/big"
 	"sort"
 	"strings"
+	"sync"
 
 	"golang.org/x/tools/go/ssa"
 )
@@ -36,18 +37,18 @@ func (a av) String() string {
 }
 
 type cmpAbs struct {
-	p      *Prog
-	fn     *ssa.Function
-	symRng map[string][2]*big.Int
-	nsym   int
-	A, B   ssa.Value // not used as values; loads are recognised structurally
-	idx    *ssa.Phi
+	p          *Prog
+	fn         *ssa.Function
+	symRng     map[string][2]*big.Int
+	nsym       int
+	A, B       ssa.Value // not used as values; loads are recognised structurally
+	idx        *ssa.Phi
 	pa, pb, pl *ssa.Parameter
-	notes  []string
-	tuples map[ssa.Value][]av
-	header *ssa.BasicBlock
-	statePhis []*ssa.Phi
-	loadOf map[*ssa.IndexAddr]*ssa.Parameter
+	notes      []string
+	tuples     map[ssa.Value][]av
+	header     *ssa.BasicBlock
+	statePhis  []*ssa.Phi
+	loadOf     map[*ssa.IndexAddr]*ssa.Parameter
 }
 
 func bi(x int64) *big.Int { return big.NewInt(x) }
@@ -772,8 +773,8 @@ func (c *cmpAbs) walk(b, pred *ssa.BasicBlock, env map[ssa.Value]av, first bool,
 			return
 		case *ssa.Return:
 			o := cmpOutcome{kind: "return", retPos: c.p.InstrPos(x)}
-			if len(x.Results) == 1 {
-				o.ret = c.eval(x.Results[0], env)
+			if len(retVals(x)) == 1 {
+				o.ret = c.eval(retVals(x)[0], env)
 			}
 			*outs = append(*outs, o)
 			return
@@ -804,7 +805,7 @@ func sameAV(a, b av) bool {
 // small linear evaluator over (phi, l): value = cp*phi + cl*l + k
 type idxLin struct {
 	cp, cl, k int64
-	ok       bool
+	ok        bool
 }
 
 func (c *cmpAbs) idxEval(v ssa.Value) idxLin {
@@ -838,7 +839,7 @@ func (c *cmpAbs) idxEval(v ssa.Value) idxLin {
 }
 
 func checkC20(cx *Ctx, r *Report) {
-	r.Explanation = "Decided: the comparison clause of C20 for utils.ConstantTimeCmp, for all contents and all lengths, by predicate abstraction of its loop: the abstract state is the order (EQ/LT/GT) of the part of the strings processed so far; for each state an invariant over the loop-carried variables (interval + known-non-zero) is computed as the fixpoint of the abstract transformer of one iteration under the three cases A<B, A=B, A>B (values are linear forms over B, D=A-B and the state symbols, so the borrow arithmetic is exact); every return reachable after the loop from state S must be the constant the order dictates. Rules: CMP-LOOP (the loop visits exactly the indices l-1..0 resp. 0..l-1, one per iteration), CMP-OPERANDS (a and b are read only at the loop index, nowhere else), CMP-RESULT (three obligations). NOT decided: the signed-window recoding clause (DecomposeNAF: digit set, spacing, weighted sum) - an inductive arithmetic fact over 256-bit integers for which no abstract domain was built; its constant-time shape is not claimed either (the function is used on public scalars only)."
+	r.Explanation = "Decided, for all inputs: (1) the comparison clause for utils.ConstantTimeCmp by predicate abstraction of its loop: the abstract state is the order (EQ/LT/GT) of the part of the strings processed so far; for each state an invariant over the loop-carried variables (interval + known-non-zero) is computed as the fixpoint of the abstract transformer of one iteration under the three cases A<B, A=B, A>B (values are linear forms over B, D=A-B and the state symbols, so the borrow arithmetic is exact); every return reachable after the loop from state S must be the constant the order dictates. Rules: CMP-LOOP (the loop visits exactly the indices l-1..0 resp. 0..l-1, one per iteration), CMP-OPERANDS (a and b are read only at the loop index, nowhere else), CMP-RESULT (three obligations). (2) the signed-window recoding clause for utils.DecomposeNAF, every 256-bit input and every width 1..7, by the state-set interpreter of checker/sched.go: input bytes are vectors of bit symbols, the output index and the carry flag are concrete and keep abstract states apart (at most 2 x 257), digits are linear forms over the input bits with bounds learned from the branches; NAF-DIGIT: every stored digit is odd, |d| < 2^w, and at least w+1 positions above the previous non-zero digit; NAF-SUM: the observed sum of digit*2^index equals sum s_i 2^i at every return (states are joined when their sums agree after substituting the bit values known on either path)."
 	r.Trusted = []string{"go/ssa", "semantics of math/bits.Sub32/Sub64/Add32/Add64 and crypto/subtle selectors as modelled in the abstract transformer", "two's-complement wrap of Go integer arithmetic"}
 	p, err := LoadRepo(cx.Repo, "amd64")
 	if err != nil {
@@ -1106,6 +1107,7 @@ func checkC20(cx *Ctx, r *Report) {
 	}
 	r.Count("cmp_transitions", ntrans)
 	r.Floor("cmp_transitions", 9)
+	defer c20NAF(r, p)
 	want := []string{"0", "-1", "1"}
 	for s := 0; s < 3; s++ {
 		var ivs []string
@@ -1125,6 +1127,72 @@ func checkC20(cx *Ctx, r *Report) {
 		}
 		r.Check(ok, "CMP-RESULT", key+" order "+names[s], pos, fmt.Sprintf("when the first l bytes compare %s the loop invariant is {%s} and the function can return only %s; required %s", names[s], strings.Join(ivs, ", "), strings.Join(got, " or "), want[s]))
 	}
+}
+
+// c20NAF: the signed-window recoding, for every 256-bit input and every window width 1..7, by the state-set interpreter of
+// checker/sched.go: input bytes are vectors of bit symbols, the carry flag and the output index are concrete and keep
+// abstract states apart, every store into the digit array adds digit*2^index to an observed weighted sum and is checked
+// against the digit rules; states that agree on (index, carry) are joined when their sums agree after substituting the
+// bit values known on either path.
+func c20NAF(r *Report, p *Prog) {
+	fn := p.MustFunc(r, "utils.DecomposeNAF")
+	if fn == nil {
+		return
+	}
+	pos := p.Pos(fn.Pos())
+	type res struct {
+		e    *sched
+		rets []schedRet
+	}
+	results := make([]res, 8)
+	var wg sync.WaitGroup
+	for w := 1; w <= 7; w++ {
+		wg.Add(1)
+		go func(w int) {
+			defer wg.Done()
+			e := newSched(p, map[string]*tabSem{})
+			st := newSState()
+			id := e.newID()
+			arr := &hArray{elems: make([]sVal, 257)}
+			for i := range arr.elems {
+				arr.elems[i] = sInt{big.NewInt(0)}
+			}
+			st.heap[id] = arr
+			e.ghostArr, e.ghostW = id, w
+			st.ghost = pform{}
+			defer func() {
+				if x := recover(); x != nil {
+					e.fail("analysis panic: %v", x)
+				}
+				results[w].e = e
+			}()
+			results[w].rets = e.runFunc(fn, st, []sVal{sSlice{id, 0, 257}, sBytes{"s", 32}, sInt{big.NewInt(257)}, sInt{big.NewInt(int64(w))}})
+		}(w)
+	}
+	wg.Wait()
+	for w := 1; w <= 7; w++ {
+		key := fmt.Sprintf("utils.DecomposeNAF w=%d", w)
+		e, rets := results[w].e, results[w].rets
+		r.Count("naf_widths", 1)
+		if len(e.errs) > 0 || len(e.panics) > 0 {
+			r.Viol("NAF-SUM", key, pos, "the recoding cannot be followed: "+strings.Join(append(e.errs, e.panics...), "; "))
+			continue
+		}
+		want := bitsForm("s", 256, "")
+		ok := len(rets) >= 1
+		detail := fmt.Sprintf("%d final abstract states, %d digit stores followed, %d abstract steps", len(rets), e.digitStores, e.steps)
+		for _, rt := range rets {
+			d := pfAdd(rt.st.ghost, pfScale(want, big.NewInt(-1)))
+			if !rt.st.vanishes(d) {
+				ok, detail = false, "on some path the digits sum to something else: "+describeDiff(want, rt.st.ghost)
+				break
+			}
+		}
+		r.Check(ok, "NAF-SUM", key, pos, "sum of digit_i * 2^i over the 257 output positions equals the 256-bit input: "+detail)
+		sort.Strings(e.digitProblems)
+		r.Check(len(e.digitProblems) == 0, "NAF-DIGIT", key, pos, fmt.Sprintf("every stored digit is odd with |d| < %d and is followed by at least %d zero positions", 1<<uint(w), w)+ifs(len(e.digitProblems) > 0, ": "+strings.Join(e.digitProblems, "; ")))
+	}
+	r.Floor("naf_widths", 7)
 }
 
 // preWalk: from the entry to the first arrival at the header
